@@ -397,9 +397,10 @@ def _strip_paren(node):
 def doc(text: str | bytes) -> dict:
     root, b = cst(text)
     d = {"shape": "ok", "wrap": [], "layers": [], "body": {"k": "set", "rec": False, "ml": False, "items": [], "dang": []},
-         "lead": [], "trail": [], "nl": 0}
+         "lead": [], "trail": [], "nl": 0, "allc": []}
     tail = b.decode("utf-8", "replace")
     d["nl"] = min(3, len(tail) - len(tail.rstrip("\n")))
+    d["allc"] = [i["s"] for i in items(b) if i["k"] == "c"]      # every comment of the text, in order
     if root.has_error:
         d["shape"] = "error"
         return d
